@@ -660,4 +660,381 @@ theorem prepare_sc_le (o : EpochOpts W) (p p1 : Pop W) (ex : ExecState) (rs rs' 
   intro x hx
   exact hle m (w2 m hm) x (List.mem_filter.mp hx).1
 
+/-! ### 4. from the babies of one species to the next generation -/
+
+/-- `reproduce_has_champion` with the reservation bounded from above only (a non-positive reservation takes the
+    champion-clone branch) -/
+theorem reproduceSpecies_has_copy (o : EpochOpts W) (gen : Int) (s : Species W) (sorted : List (Species W)) (reg reg' : Reg W)
+    (uid uid' : Nat) (babies : List (Org W)) (champ : Org W) (rs rs' : List Nat)
+    (hchamp : s.orgs.head? = some champ) (hrefs : C06.RefsOk champ.genome)
+    (hq : s.expectedOffspring > 5) (hsc : champ.superChampOffspring ≤ s.expectedOffspring)
+    (h : reproduceSpecies o gen s sorted reg uid rs = .ok ((babies, reg', uid'), rs')) :
+    ∃ b ∈ babies, IsCopy champ b := by
+  unfold reproduceSpecies at h
+  rw [hchamp] at h
+  simp only at h
+  split at h
+  · cases h
+  · rename_i st rs1 hloop
+    simp only [Except.ok.injEq, Prod.mk.injEq] at h
+    obtain ⟨⟨rfl, _, _⟩, _⟩ := h
+    apply reproduceLoop_has_copy o gen s sorted champ hrefs _ _ _ _ _ _ hloop
+    simp only
+    have hn : (s.expectedOffspring.toNat : Int) = s.expectedOffspring := Int.toNat_of_nonneg (by omega)
+    by_cases h0 : 1 ≤ champ.superChampOffspring
+    · right; left; exact ⟨h0, by omega⟩
+    · right; right; exact ⟨by omega, trivial, hq, by omega⟩
+
+theorem reproduceAll_acc (o : EpochOpts W) (gen : Int) (sorted ss : List (Species W)) (reg reg' : Reg W) (uid uid' : Nat)
+    (acc babies : List (Org W)) (rs rs' : List Nat)
+    (h : reproduceAll o gen sorted ss reg uid acc rs = .ok ((babies, reg', uid'), rs')) : ∀ b ∈ acc, b ∈ babies := by
+  induction ss generalizing reg uid acc rs with
+  | nil => simp only [reproduceAll, Except.ok.injEq, Prod.mk.injEq] at h; obtain ⟨⟨rfl, _, _⟩, _⟩ := h; exact fun b hb => hb
+  | cons s ss ih =>
+    unfold reproduceAll at h
+    split at h
+    · cases h
+    · intro b hb; exact ih _ _ _ _ h b (List.mem_append_left _ hb)
+
+/-- the babies of ALL species contain the copy made for any one of them -/
+theorem reproduceAll_has_copy (o : EpochOpts W) (gen : Int) (sorted ss : List (Species W)) (reg reg' : Reg W) (uid uid' : Nat)
+    (acc babies : List (Org W)) (rs rs' : List Nat)
+    (h : reproduceAll o gen sorted ss reg uid acc rs = .ok ((babies, reg', uid'), rs'))
+    (s : Species W) (hs : s ∈ ss) (champ : Org W) (hchamp : s.orgs.head? = some champ) (hrefs : C06.RefsOk champ.genome)
+    (hq : s.expectedOffspring > 5) (hsc : champ.superChampOffspring ≤ s.expectedOffspring) :
+    ∃ b ∈ babies, IsCopy champ b := by
+  induction ss generalizing reg uid acc rs with
+  | nil => cases hs
+  | cons s0 ss ih =>
+    unfold reproduceAll at h
+    split at h
+    · cases h
+    · rename_i bs reg1 uid1 rs1 hs0
+      rcases List.mem_cons.mp hs with rfl | hs'
+      · obtain ⟨b, hb, hc⟩ := reproduceSpecies_has_copy o gen _ sorted _ _ _ _ _ champ _ _ hchamp hrefs hq hsc hs0
+        exact ⟨b, reproduceAll_acc _ _ _ _ _ _ _ _ _ _ _ _ h b (List.mem_append_right _ hb), hc⟩
+      · exact ih _ _ _ _ h hs'
+
+/-- reproduction returns only if every species still has a first organism -/
+theorem reproduceAll_heads (o : EpochOpts W) (gen : Int) (sorted ss : List (Species W)) (reg reg' : Reg W) (uid uid' : Nat)
+    (acc babies : List (Org W)) (rs rs' : List Nat)
+    (h : reproduceAll o gen sorted ss reg uid acc rs = .ok ((babies, reg', uid'), rs')) :
+    ∀ s ∈ ss, ∃ champ, s.orgs.head? = some champ := by
+  induction ss generalizing reg uid acc rs with
+  | nil => intro s hs; cases hs
+  | cons s0 ss ih =>
+    unfold reproduceAll at h
+    split at h
+    · cases h
+    · rename_i bs reg1 uid1 rs1 hs0
+      intro s hs
+      rcases List.mem_cons.mp hs with rfl | hs'
+      · unfold reproduceSpecies at hs0
+        split at hs0
+        · split at hs0 <;> cases hs0
+        · rename_i champ hc; exact ⟨champ, hc⟩
+      · exact ih _ _ _ _ h s hs'
+
+/-! newborns carry no reservation -/
+
+theorem reproduceOne_sc (o : EpochOpts W) (gen : Int) (s : Species W) (sorted : List (Species W)) (champ : Org W)
+    (count : Int) (st st' : ReproState W) (rs rs' : List Nat)
+    (h : reproduceOne o gen s sorted champ count st rs = .ok (st', rs')) :
+    ∃ b, st'.babies = st.babies ++ [b] ∧ b.superChampOffspring = 0 := by
+  unfold reproduceOne at h
+  simp only at h
+  repeat' (split at h)
+  all_goals (first
+    | (simp only [Except.ok.injEq, Prod.mk.injEq] at h; obtain ⟨rfl, _⟩ := h; exact ⟨_, rfl, rfl⟩)
+    | cases h)
+
+theorem reproduceLoop_sc (o : EpochOpts W) (gen : Int) (s : Species W) (sorted : List (Species W)) (champ : Org W)
+    (n : Nat) (count : Int) (st st' : ReproState W) (rs rs' : List Nat)
+    (h : reproduceLoop o gen s sorted champ n count st rs = .ok (st', rs'))
+    (hz : ∀ b ∈ st.babies, b.superChampOffspring = 0) : ∀ b ∈ st'.babies, b.superChampOffspring = 0 := by
+  induction n generalizing count st rs with
+  | zero => simp [reproduceLoop] at h; obtain ⟨rfl, _⟩ := h; exact hz
+  | succ n ih =>
+    unfold reproduceLoop at h
+    split at h
+    · cases h
+    · rename_i st1 rs1 hone
+      obtain ⟨b, hb, hb0⟩ := reproduceOne_sc _ _ _ _ _ _ _ _ _ _ hone
+      apply ih _ _ _ h
+      intro x hx
+      rw [hb] at hx
+      rcases List.mem_append.mp hx with h' | h'
+      · exact hz x h'
+      · simp only [List.mem_singleton] at h'; rw [h']; exact hb0
+
+theorem reproduceAll_sc (o : EpochOpts W) (gen : Int) (sorted ss : List (Species W)) (reg reg' : Reg W) (uid uid' : Nat)
+    (acc babies : List (Org W)) (rs rs' : List Nat)
+    (h : reproduceAll o gen sorted ss reg uid acc rs = .ok ((babies, reg', uid'), rs'))
+    (hz : ∀ b ∈ acc, b.superChampOffspring = 0) : ∀ b ∈ babies, b.superChampOffspring = 0 := by
+  induction ss generalizing reg uid acc rs with
+  | nil => simp only [reproduceAll, Except.ok.injEq, Prod.mk.injEq] at h; obtain ⟨⟨rfl, _, _⟩, _⟩ := h; exact hz
+  | cons s ss ih =>
+    unfold reproduceAll at h
+    split at h
+    · cases h
+    · rename_i bs reg1 uid1 rs1 hs
+      apply ih _ _ _ _ h
+      intro b hb
+      rcases List.mem_append.mp hb with h' | h'
+      · exact hz b h'
+      · unfold reproduceSpecies at hs
+        split at hs
+        · split at hs <;> cases hs
+        · simp only at hs
+          split at hs
+          · cases hs
+          · rename_i st rs2 hloop
+            simp only [Except.ok.injEq, Prod.mk.injEq] at hs
+            obtain ⟨⟨rfl, _, _⟩, _⟩ := hs
+            exact reproduceLoop_sc _ _ _ _ _ _ _ _ _ _ _ hloop (by intro x hx; cases hx) b h'
+
+/-! speciation only moves organisms -/
+
+omit [Scalar W] in
+theorem modify_append_mem (ss : List (Species W)) (i : Nat) (org : Org W) (hi : i < ss.length) :
+    (∃ s ∈ ss.modify i (fun s => { s with orgs := s.orgs ++ [org] }), org ∈ s.orgs) ∧
+    ∀ s ∈ ss, ∀ x ∈ s.orgs, ∃ s' ∈ ss.modify i (fun s => { s with orgs := s.orgs ++ [org] }), x ∈ s'.orgs := by
+  induction ss generalizing i with
+  | nil => simp at hi
+  | cons a t ih =>
+    cases i with
+    | zero =>
+      simp only [List.modify_zero_cons]
+      refine ⟨⟨_, List.mem_cons_self, by simp⟩, ?_⟩
+      intro s hs x hx
+      rcases List.mem_cons.mp hs with rfl | h'
+      · exact ⟨_, List.mem_cons_self, by simp [hx]⟩
+      · exact ⟨s, List.mem_cons_of_mem _ h', hx⟩
+    | succ i =>
+      simp only [List.modify_succ_cons]
+      obtain ⟨⟨s1, hs1, ho⟩, hall⟩ := ih i (by simpa using hi)
+      refine ⟨⟨s1, List.mem_cons_of_mem _ hs1, ho⟩, ?_⟩
+      intro s hs x hx
+      rcases List.mem_cons.mp hs with rfl | h'
+      · exact ⟨s, List.mem_cons_self, hx⟩
+      · obtain ⟨s', hs', hx'⟩ := hall s h' x hx
+        exact ⟨s', List.mem_cons_of_mem _ hs', hx'⟩
+
+theorem speciateOne_fwd (o : EpochOpts W) (p p' : Pop W) (org : Org W) (h : speciateOne o p org = .ok p') :
+    (∃ s ∈ p'.species, org ∈ s.orgs) ∧ ∀ s ∈ p.species, ∀ x ∈ s.orgs, ∃ s' ∈ p'.species, x ∈ s'.orgs := by
+  unfold speciateOne at h
+  simp only at h
+  have hnew : ∀ sN : Species W, org ∈ sN.orgs →
+      (∃ s ∈ p.species ++ [sN], org ∈ s.orgs) ∧ ∀ s ∈ p.species, ∀ x ∈ s.orgs, ∃ s' ∈ p.species ++ [sN], x ∈ s'.orgs := by
+    intro sN ho
+    exact ⟨⟨sN, by simp, ho⟩, fun s hs x hx => ⟨s, by simp [hs], hx⟩⟩
+  split at h
+  · cases h; exact hnew _ (by simp)
+  · split at h
+    · cases h
+    · split at h
+      · rename_i i hb
+        cases h
+        have hi : i < p.species.length := by
+          have := C02.bestCompatible_lt o org.genome p.species 0 none maxVal (by intro b h; cases h) i hb; simpa using this
+        exact modify_append_mem _ _ _ hi
+      · cases h; exact hnew _ (by simp)
+
+/-- every arriving organism ends up, unchanged, in a species; nothing that was there is lost -/
+theorem speciateLoop_fwd (o : EpochOpts W) (p p' : Pop W) (orgs : List (Org W)) (h : speciateLoop o p orgs = .ok p') :
+    (∀ x ∈ orgs, ∃ s ∈ p'.species, x ∈ s.orgs) ∧ ∀ s ∈ p.species, ∀ x ∈ s.orgs, ∃ s' ∈ p'.species, x ∈ s'.orgs := by
+  induction orgs generalizing p with
+  | nil => simp only [speciateLoop] at h; cases h; exact ⟨(by intro x hx; cases hx), fun s hs x hx => ⟨s, hs, hx⟩⟩
+  | cons a t ih =>
+    unfold speciateLoop at h
+    split at h
+    · cases h
+    · rename_i p1 h1
+      obtain ⟨⟨sa, hsa, ha⟩, hold⟩ := speciateOne_fwd o p p1 a h1
+      obtain ⟨i1, i2⟩ := ih _ h
+      refine ⟨?_, ?_⟩
+      · intro x hx
+        rcases List.mem_cons.mp hx with rfl | h'
+        · exact i2 sa hsa x ha
+        · exact i1 x h'
+      · intro s hs x hx
+        obtain ⟨s1, hs1, hx1⟩ := hold s hs x hx
+        exact i2 s1 hs1 x hx1
+
+/-! the final purge removes the old generation and renumbers genome ids — nothing else -/
+
+omit [Scalar W] in
+theorem renumber_fwd (l : List (Org W)) (k : Int) :
+    ∀ x ∈ l, ∃ id, ({ x with genome := { x.genome with id := id } } : Org W) ∈ renumber l k := by
+  induction l generalizing k with
+  | nil => intro x hx; cases hx
+  | cons a t ih =>
+    intro x hx
+    unfold renumber
+    rcases List.mem_cons.mp hx with rfl | h'
+    · exact ⟨k, List.mem_cons_self⟩
+    · obtain ⟨id, hid⟩ := ih (k + 1) x h'
+      exact ⟨id, List.mem_cons_of_mem _ hid⟩
+
+omit [Scalar W] in
+theorem renumber_bwd (l : List (Org W)) (k : Int) :
+    ∀ x' ∈ renumber l k, ∃ x ∈ l, x' = { x with genome := { x.genome with id := x'.genome.id } } := by
+  induction l generalizing k with
+  | nil => intro x hx; simp [renumber] at hx
+  | cons a t ih =>
+    intro x' hx'
+    unfold renumber at hx'
+    rcases List.mem_cons.mp hx' with rfl | h'
+    · exact ⟨a, List.mem_cons_self, rfl⟩
+    · obtain ⟨x, hx, e⟩ := ih (k + 1) x' h'
+      exact ⟨x, List.mem_cons_of_mem _ hx, e⟩
+
+omit [Scalar W] in
+theorem purgeOrAgeLoop_fwd (ss : List (Species W)) (k : Int) :
+    ∀ s ∈ ss, ∀ x ∈ s.orgs, ∃ s' ∈ purgeOrAgeLoop ss k, ∃ id,
+      ({ x with genome := { x.genome with id := id } } : Org W) ∈ s'.orgs := by
+  induction ss generalizing k with
+  | nil => intro s hs; cases hs
+  | cons a t ih =>
+    intro s hs x hx
+    unfold purgeOrAgeLoop
+    split
+    · rename_i he
+      rcases List.mem_cons.mp hs with rfl | h'
+      · have : s.orgs = [] := by simpa using he
+        rw [this] at hx; cases hx
+      · exact ih _ s h' x hx
+    · rcases List.mem_cons.mp hs with rfl | h'
+      · obtain ⟨id, hid⟩ := renumber_fwd s.orgs k x hx
+        exact ⟨_, List.mem_cons_self, id, hid⟩
+      · obtain ⟨s', hs', r⟩ := ih _ s h' x hx
+        exact ⟨s', List.mem_cons_of_mem _ hs', r⟩
+
+omit [Scalar W] in
+theorem purgeOrAgeLoop_bwd (ss : List (Species W)) (k : Int) :
+    ∀ s' ∈ purgeOrAgeLoop ss k, ∀ x' ∈ s'.orgs, ∃ s ∈ ss, ∃ x ∈ s.orgs,
+      x' = { x with genome := { x.genome with id := x'.genome.id } } := by
+  induction ss generalizing k with
+  | nil => intro s hs; simp [purgeOrAgeLoop] at hs
+  | cons a t ih =>
+    intro s' hs' x' hx'
+    unfold purgeOrAgeLoop at hs'
+    split at hs'
+    · obtain ⟨s, hs, r⟩ := ih _ s' hs' x' hx'
+      exact ⟨s, List.mem_cons_of_mem _ hs, r⟩
+    · rcases List.mem_cons.mp hs' with rfl | h'
+      · obtain ⟨x, hx, e⟩ := renumber_bwd _ _ x' hx'
+        exact ⟨a, List.mem_cons_self, x, hx, e⟩
+      · obtain ⟨s, hs, r⟩ := ih _ s' h' x' hx'
+        exact ⟨s, List.mem_cons_of_mem _ hs, r⟩
+
+omit [Scalar W] in
+/-- an organism that is not of the old generation survives `finalizeReproduction` with nothing but its genome id changed,
+    in a species of the new population and listed in its organism list -/
+theorem finalize_fwd (p2 : Pop W) (s : Species W) (hs : s ∈ p2.species) (x : Org W) (hx : x ∈ s.orgs)
+    (hnew : x.uid ∉ p2.organisms) :
+    ∃ s' ∈ (finalizeReproduction p2).species, ∃ id,
+      ({ x with genome := { x.genome with id := id } } : Org W) ∈ s'.orgs ∧ x.uid ∈ (finalizeReproduction p2).organisms := by
+  have h1 : ({ s with orgs := s.orgs.filter (fun o => !p2.organisms.contains o.uid) } : Species W) ∈ (purgeOldGeneration p2).species := by
+    unfold purgeOldGeneration
+    exact List.mem_map.mpr ⟨s, hs, rfl⟩
+  have h2 : x ∈ ({ s with orgs := s.orgs.filter (fun o => !p2.organisms.contains o.uid) } : Species W).orgs := by
+    simp only [List.mem_filter, hx, true_and, Bool.not_eq_true', List.contains_eq_mem, decide_eq_false_iff_not]
+    exact hnew
+  obtain ⟨s', hs', id, hid⟩ := purgeOrAgeLoop_fwd (purgeOldGeneration p2).species 0 _ h1 x h2
+  refine ⟨s', hs', id, hid, ?_⟩
+  show x.uid ∈ (purgeOrAgeLoop (purgeOldGeneration p2).species 0).flatMap (fun s => s.orgs.map (·.uid))
+  exact List.mem_flatMap.mpr ⟨s', hs', List.mem_map.mpr ⟨_, hid, rfl⟩⟩
+
+omit [Scalar W] in
+theorem finalize_bwd (p2 : Pop W) : ∀ s' ∈ (finalizeReproduction p2).species, ∀ x' ∈ s'.orgs,
+    ∃ s ∈ p2.species, ∃ x ∈ s.orgs, x.uid ∉ p2.organisms ∧ x' = { x with genome := { x.genome with id := x'.genome.id } } := by
+  intro s' hs' x' hx'
+  have hs'' : s' ∈ purgeOrAgeLoop (purgeOldGeneration p2).species 0 := hs'
+  obtain ⟨s1, hs1, x, hx, e⟩ := purgeOrAgeLoop_bwd _ _ s' hs'' x' hx'
+  unfold purgeOldGeneration at hs1
+  obtain ⟨s, hs, rfl⟩ := List.mem_map.mp hs1
+  simp only [List.mem_filter, Bool.not_eq_true', List.contains_eq_mem, decide_eq_false_iff_not] at hx
+  exact ⟨s, hs, x, hx.1, hx.2, e⟩
+
+/-- **from one species' champion to the next generation.**  If the reproduction phase returns, then for every species of
+    the prepared population with quota above five whose first organism's reservation does not exceed the quota, the
+    finalised population holds — in one of its species and in its organism list — an organism whose genome is that
+    organism's genome under a new id. -/
+theorem reproduce_finalize_has_copy (o : EpochOpts W) (gen : Int) (p1 p2 : Pop W) (ex : ExecState) (rs rs' : List Nat)
+    (hu : C02.UidInv p1) (h : reproducePhase o gen p1 ex rs = .ok (p2, rs'))
+    (s : Species W) (hs : s ∈ p1.species) (champ : Org W) (hchamp : s.orgs.head? = some champ)
+    (hrefs : C06.RefsOk champ.genome) (hq : s.expectedOffspring > 5)
+    (hsc : champ.superChampOffspring ≤ s.expectedOffspring) :
+    ∃ s' ∈ (finalizeReproduction p2).species, ∃ x ∈ s'.orgs, x.uid ∈ (finalizeReproduction p2).organisms ∧ IsCopy champ x := by
+  unfold reproducePhase at h
+  simp only at h
+  split at h
+  · cases h
+  · rename_i babies reg uid rs1 hall
+    split at h
+    · cases h
+    · split at h
+      · cases h
+      · rename_i p2' hsp
+        simp only [Except.ok.injEq, Prod.mk.injEq] at h
+        obtain ⟨rfl, _⟩ := h
+        obtain ⟨b, hb, hcopy⟩ := reproduceAll_has_copy o gen _ _ _ _ _ _ _ _ _ _ hall s hs champ hchamp hrefs hq hsc
+        obtain ⟨_, _, hge⟩ := C02.reproduceAll_uids o gen _ _ _ _ _ _ [] babies _ _ hall (by simp) (by simp)
+        unfold speciate at hsp
+        split at hsp
+        · cases hsp
+        · obtain ⟨hfw, _⟩ := speciateLoop_fwd o _ _ _ hsp
+          obtain ⟨_, horg, _⟩ := C02.speciateLoop_uids o _ _ _ hsp
+          simp only at horg
+          obtain ⟨sb, hsb, hbs⟩ := hfw b hb
+          have hnew : b.uid ∉ p2'.organisms := by
+            rw [horg]
+            intro hmem
+            have := hu.below _ hmem
+            rcases hge b.uid (List.mem_map_of_mem hb) with h' | h'
+            · simp at h'
+            · omega
+          obtain ⟨s', hs', id, hx', hlist⟩ := finalize_fwd p2' sb hsb b hbs hnew
+          refine ⟨s', hs', _, hx', hlist, ?_⟩
+          obtain ⟨i, hi⟩ := hcopy
+          exact ⟨id, by show ({ b.genome with id := id } : Genome W) = _; rw [hi]⟩
+
+/-- every organism of the finalised population is a newborn: no reservation -/
+theorem reproduce_finalize_allZ (o : EpochOpts W) (gen : Int) (p1 p2 : Pop W) (ex : ExecState) (rs rs' : List Nat)
+    (hu : C02.UidInv p1) (h : reproducePhase o gen p1 ex rs = .ok (p2, rs')) :
+    ∀ s ∈ (finalizeReproduction p2).species, AllZ s := by
+  unfold reproducePhase at h
+  simp only at h
+  split at h
+  · cases h
+  · rename_i babies reg uid rs1 hall
+    split at h
+    · cases h
+    · split at h
+      · cases h
+      · rename_i p2' hsp
+        simp only [Except.ok.injEq, Prod.mk.injEq] at h
+        obtain ⟨rfl, _⟩ := h
+        have hb0 := reproduceAll_sc o gen _ _ _ _ _ _ _ _ _ _ hall (by intro b hb; cases hb)
+        unfold speciate at hsp
+        split at hsp
+        · cases hsp
+        · obtain ⟨hbw, _⟩ := C01.speciateLoop_orgs o _ _ _ hsp
+          obtain ⟨_, horg, _⟩ := C02.speciateLoop_uids o _ _ _ hsp
+          simp only at horg
+          intro s' hs' x' hx'
+          obtain ⟨s, hs, x, hx, hnew, e⟩ := finalize_bwd p2' s' hs' x' hx'
+          rw [e]
+          show x.superChampOffspring = 0
+          rcases hbw x (C01.mem_allOrgs.mpr ⟨s, hs, hx⟩) with h' | h'
+          · exfalso
+            apply hnew
+            rw [horg]
+            obtain ⟨s0, hs0, hx0⟩ := C01.mem_allOrgs.mp h'
+            apply hu.listed
+            simp only [C02.orgUids, List.mem_flatMap, List.mem_map]
+            exact ⟨s0, hs0, x, hx0, rfl⟩
+          · exact hb0 x h'
+
 end GoNeat.C10
